@@ -129,6 +129,11 @@ def oracle(stream, header, ops, obs):
             w1, w2 = reach(v, a[0]), reach(v, a[1])
             if len(s) != len(w1) + len(w2) or set(s[:len(w1)]) != w1 or set(s[len(w1):]) != w2:
                 return bad(k, "dfs-reset-wrong", [sorted(w1), sorted(w2)])
+        elif name == "dfspost_reset":
+            s = nums(first)
+            w1, w2 = reach(v, a[0]), reach(v, a[1])
+            if len(s) != len(w1) + len(w2) or set(s[:len(w1)]) != w1 or set(s[len(w1):]) != w2:
+                return bad(k, "dfspost-reset-does-not-restart-from-an-empty-walker", [sorted(w1), sorted(w2)])
         elif name == "dfs_moveto":
             s = nums(first)
             full = reach(v, a[0])
